@@ -36,35 +36,31 @@ def failT (c : PState) (ps : List Pair) : RG :=
   | some c' => .done false c' ps
   | none => .exc .indexError
 
-/-- the closure `parse_<name>` built by `generate_rule` + `Rule.generate` -/
+/-- the tail of the closure `parse_<name>`: leave the `with` block, pop the rule stack, then
+    (silent) `if matched: pairs.extend(children)` or (non-silent) `if matched:` pop the tag and
+    append the pair; `return matched` -/
+def ruleExitG (name : String) (mod : Nat) (start : Nat) (matched : Bool) (c2 : PState)
+    (children : List Pair) (ps : List Pair) : RG :=
+  let c3 := if L1.ruleScoped name mod then { c2 with adepth := c2.adepth.restore } else c2
+  match c3.rstack.pop with
+  | none => .exc .indexError
+  | some (_, rs) =>
+    let c4 := { c3 with rstack := rs }
+    if !matched then .done false c4 ps
+    else if hasBit mod SILENT then .done true c4 (ps ++ children)
+    else
+      let (tag, c5) : Option String × PState :=
+        match c4.tagStack with
+        | [] => (none, c4)
+        | t :: ts => (some t, { c4 with tagStack := ts })
+      let children := if hasBit mod ATOMIC then visibleList children else children
+      .done true c5 (ps ++ [.mk name mod start c5.pos children tag])
+
+/-- the closure `parse_<name>` built by `generate_rule` + `Rule.generate`; the body appends to
+    a fresh local list `children` -/
 def ruleG (rec : SemG) (name : String) (mod : Nat) (body : Expr) (c : PState) (ps : List Pair) : RG :=
-  let start := c.pos
-  let c1 := { c with rstack := c.rstack.push name }
-  let isScoped :=
-    hasBit mod ATOMIC || hasBit mod COMPOUND || L1.isTriviaName name || hasBit mod NONATOMIC
-  let enter : PState :=
-    if hasBit mod ATOMIC || hasBit mod COMPOUND || L1.isTriviaName name then
-      { c1 with adepth := (c1.adepth.snapshot).add 1 }
-    else if hasBit mod NONATOMIC then
-      { c1 with adepth := (c1.adepth.snapshot).zero }
-    else c1
-  match rec body enter [] with                              -- children: list[Pair] = []
-  | .done matched c2 children =>
-    let c3 := if isScoped then { c2 with adepth := c2.adepth.restore } else c2
-    match c3.rstack.pop with
-    | none => .exc .indexError
-    | some (_, rs) =>
-      let c4 := { c3 with rstack := rs }
-      if hasBit mod SILENT then
-        .done matched c4 (if matched then ps ++ children else ps)
-      else if matched then
-        let (tag, c5) : Option String × PState :=
-          match c4.tagStack with
-          | [] => (none, c4)
-          | t :: ts => (some t, { c4 with tagStack := ts })
-        let children := if hasBit mod ATOMIC then visibleList children else children
-        .done true c5 (ps ++ [.mk name mod start c5.pos children tag])
-      else .done false c4 ps
+  match rec body (L1.ruleEnter name mod { c with rstack := c.rstack.push name }) [] with
+  | .done matched c2 children => ruleExitG name mod c.pos matched c2 children ps
   | r => r
 
 /-- `parse_<name>(state, pairs)`: only grammar rules and EOI have a generated function -/
@@ -179,10 +175,13 @@ def step (k : Nat) (rec : SemG) : SemG
     | some x => if L1.inRange a b x then .done true { c with pos := c.pos + 1 } ps else failT c ps
     | none => failT c ps
   | .ident name tag, c, ps => withTagG tag c (fun c => callRuleG g rec name c ps)
-  | .rule name _ _ body, c, ps =>
-    -- BuiltInRule.generate inlines the body (no frame); an embedded EOI would emit a nested
-    -- `def inner`, which the front end never produces
-    if name == "EOI" then .exc .other else rec body c ps
+  | .rule name mod _ body, c, ps =>
+    -- `BuiltInRule.generate` inlines the body: no frame, no pair, no change of atomicity.  That is
+    -- what the interpreter does only for silent, non-atomic built-ins — which all built-in rule
+    -- objects other than EOI are (ANY, SOI, ASCII_*, NEWLINE, the Unicode rules); an embedded EOI
+    -- would emit a nested `def inner`.  Trees the front end cannot build are outside the model.
+    if name == "EOI" || !hasBit mod SILENT || L1.ruleScoped name mod then .exc .other
+    else rec body c ps
   | .seq es, c, ps => seqG g rec k es c ps
   | .choice es, c, ps => choiceG rec es c ps
   | .opt e, c, ps =>
@@ -206,13 +205,8 @@ def step (k : Nat) (rec : SemG) : SemG
     match rec e { c0 with negDepth := c0.negDepth + 1 } [] with
     | .done matched c1 _ =>
       let c2 := c1.restore
-      let failedName : Option String :=
-        match e with
-        | .ident n _ => some n
-        | .rule n _ _ _ => some n
-        | _ => none
       if matched then
-        match c2.fail failedName true with
+        match c2.fail (L1.failedName e) true with
         | some c3 => .done false { c3 with negDepth := c3.negDepth - 1 } ps
         | none => .exc .indexError
       else .done true { c2 with negDepth := c2.negDepth - 1 } ps
